@@ -8,6 +8,7 @@ From Coq Require Import ZArith List Bool.
 From FT Require Import Base.Dict Model.Edit Model.EditExec Proofs.EditInv Proofs.EditFrame.
 From FT Require Gen.History_gen Proofs.HistoryGen Props.C02.
 From FT Require Gen.UserActions_gen Proofs.UserActionsTie.
+From FT Require Proofs.CoreTieBundle.
 Import ListNotations.
 Open Scope Z_scope.
 
@@ -99,6 +100,16 @@ Proof.
   exact FT.Proofs.UserActionsTie.gen_user_update_seg_eq.
 Qed.
 
+(* ---- one level further down: the queries (get_track_neighbors with its in-place sort, has_track_id_at_time,
+        next track / lineage id), the node-id counter, Tracks.undo / redo and the seven basic actions with their
+        inverses (__init__, _apply, the annotator notifications, the track-annotator bookkeeping and relabel
+        walk inlined) of the model equal the code translated on every run from data_model/solution_tracks.py,
+        data_model/tracks.py, annotators/_track_annotator.py and actions/*.py (Gen/Core_gen.v; translator
+        harness/translate_core.py, fail closed).  The statement is Proofs/CoreTieBundle.v: core_tie_statement.
+        Not translated (hand models): the regionprops / edge annotators' update, the bulk compute paths. ---- *)
+Theorem C20_core_is_generated : FT.Proofs.CoreTieBundle.core_tie_statement.
+Proof. exact FT.Proofs.CoreTieBundle.core_tie. Qed.
+
 Example C20_nonvacuous :
   let '(s1, (c1, _)) := step ex_state (OAddEdge 1 2 false) in
   let '(s2, (c2, _)) := step s1 (OAddEdge 2 1 false) in
@@ -115,3 +126,4 @@ Print Assumptions C20_run.
 Print Assumptions C20_nested_silent.
 Print Assumptions C20_history_is_generated.
 Print Assumptions C20_user_actions_are_generated.
+Print Assumptions C20_core_is_generated.
